@@ -32,7 +32,11 @@ const (
 	c20panicWrap // panics with a Go error that itself wraps a lisp error (a callback's throw, passed on)
 	c20errWrap   // returns such an error
 	c20panicLisp // panics with a lisp error itself (re-raising what a lisp callback threw)
+	c20panicInt  // panics with a value that is no error: an int
+	c20panicVec  // ... a lisp vector
 )
+
+var c20PanicVec = types.Vector{Val: []types.MalType{1, "two"}}
 
 // the lisp error a bound function re-raises with panic(err)
 var c20LispErr = lisperror.NewLispError("thrown by a callback, re-raised", types.NewCursorFile("callback.lisp"))
@@ -76,6 +80,10 @@ func c20enter(idx int, ctx context.Context, fixed []any, rest []any) int {
 		panic(c20WrapErr)
 	case c20panicLisp:
 		panic(c20LispErr)
+	case c20panicInt:
+		panic(42)
+	case c20panicVec:
+		panic(c20PanicVec)
 	}
 	return c20State.mode
 }
@@ -380,14 +388,14 @@ func init() {
 					el = append(el, q(a))
 				}
 				t := reflect.TypeOf(e.Fn)
-				for _, mode := range []int{c20err, c20panicErr, c20panicStr, c20panicWrap, c20errWrap, c20panicLisp} {
+				for _, mode := range []int{c20err, c20panicErr, c20panicStr, c20panicWrap, c20errWrap, c20panicLisp, c20panicInt, c20panicVec} {
 					if (mode == c20err || mode == c20errWrap) && t.NumOut() == 0 {
 						continue
 					}
 					c20State.entered, c20State.mode = 0, mode
 					_, err, p := lx.Eval(ctx, types.List{Val: el}, ns)
 					r.Exec(1)
-					what := []string{"", "returned error", "panic(error)", "panic(string)", "panic(Go error wrapping a lisp error)", "returned Go error wrapping a lisp error", "panic(lisp error)"}[mode]
+					what := []string{"", "returned error", "panic(error)", "panic(string)", "panic(Go error wrapping a lisp error)", "returned Go error wrapping a lisp error", "panic(lisp error)", "panic(int)", "panic(lisp vector)"}[mode]
 					if p != nil {
 						r.Violation("panic inside a bound function escapes: "+what, p.String())
 						break
@@ -416,6 +424,25 @@ func init() {
 						_ = inner
 						if !found {
 							r.Violation(what+": the panicked lisp error and its value are no longer reachable in the error chain", err.Error())
+							break
+						}
+					}
+					if mode == c20panicStr || mode == c20panicInt || mode == c20panicVec {
+						// the original value is still carried by a lisp error of the chain
+						var orig any = "pans"
+						if mode == c20panicInt {
+							orig = 42
+						} else if mode == c20panicVec {
+							orig = c20PanicVec
+						}
+						found := false
+						for e := err; e != nil && !found; e = errors.Unwrap(e) {
+							if le, ok := e.(interface{ ErrorValue() types.MalType }); ok && reflect.DeepEqual(le.ErrorValue(), orig) {
+								found = true
+							}
+						}
+						if !found {
+							r.Violation(what+": the panic value is no longer carried by the error", fmt.Sprintf("%T %v", err, err))
 							break
 						}
 					}
